@@ -4,13 +4,17 @@ import RtcVerif.Proofs.C05Pins
 import RtcVerif.Proofs.C05PinsGlobal
 import RtcVerif.Proofs.C05Interp
 import RtcVerif.Proofs.C08Scale
+import RtcVerif.Proofs.C05Layout
+import RtcVerif.Proofs.C05Alias
 /-!
 # C05 — variable bounds and initial conditions are imposed exactly as given
 
 Property theorems about the model `RtcVerif.C05` of `discretize_controls/_states`,
 `_collint_get_lbx_ubx`, the assembly of `lbx/ubx` and the history pins in `transcribe()`, for any
 number of variables, components, time stamps and ensemble members.  Helper lemmas:
-`Proofs/C05Lists|C05Block|C05Pass|C05Index|C05Pins.lean`, `Proofs/C08Scale.lean`.
+`Proofs/C05Lists|C05Block|C05Pass|C05Index|C05Pins|C05Layout.lean`, `Proofs/C08Scale.lean`.
+The `code_*` theorems connect the source-shaped reference `Model/C05Layout.lean` (= the generated
+`Gen/LayoutPins.lean`) to the layout and pin model of the other theorems.
 -/
 namespace RtcVerif.C05
 open RtcVerif
@@ -649,6 +653,132 @@ theorem timeseries_bound_is_c19_interp (mode : Nat) (ks : Interp.Knots) (fl fr :
     toOut (interpCoreX mode (liftKnots ks) fl fr t) = Interp.interpCore mode ks (some fl) (some fr) t :=
   interpCoreX_fin mode ks fl fr t
 
+/-! ## the index allocation and the history block in the shape of the source
+
+`Model/C05Layout.lean` (`C05.L`) follows `discretize_states`, `discretize_control(s)`, the merge of the
+index tables and the history loops of `transcribe()` statement by statement (running `offset`, cache of
+the shared control slices, `count = max(count, stop)`, shift by `control_size`); on every run
+`Gen/LayoutPins.lean` is regenerated from the source and proved equal to `C05.L`.  The theorems below
+connect `C05.L` to the layout (`stateIndex`, `ctrlIndex`) and the pins (`applyPins`, `derPin`) that the
+theorems above are about. -/
+
+/-- **The code's index table is the layout model** (states, algebraic states, path variables, extra
+    variables, initial derivatives): `ensemble_member_size` is `memberSize`, and the `j`-th entry of
+    `self.__indices[m]` (insertion order = order of the bound pass) is a slice / int whose entries
+    are exactly `stateIndex I m j c i` — start plus the component-major position `c · n + i`. -/
+theorem code_layout_is_stateIndex (I : Inst) (m j : Nat) (b : Blk) (hE : 0 < I.E)
+    (hsz : ∀ b ∈ I.controls, b.size = 1) (hex : L.ExtrasOneStamp I) (hb : (stateBlocks I)[j]? = some b) :
+    L.memberSizeK I = memberSize I ∧
+    ∃ s, ((L.stateSlotsK I m)[j]?).map (L.shiftK (L.ctrlSlotsK I).2) = some s ∧ s.stop = s.first + b.len ∧
+      ∀ c i, s.first + (c * b.n + i) = stateIndex I m j c i :=
+  ⟨L.memberSizeK_eq I hex, L.stateSlot_is_stateIndex I m j b hE hsz hex hb⟩
+
+/-- **The code's control table is the layout model**: `count` of `discretize_controls` is `ctrlSize`
+    and every member is handed the same slice for control `j` (the cached one of member 0), whose
+    entries are `ctrlIndex I j i`. -/
+theorem code_layout_is_ctrlIndex (I : Inst) (hE : 0 < I.E) (hsz : ∀ b ∈ I.controls, b.size = 1)
+    (m j : Nat) (b : Blk) (hm : m < I.E) (hb : I.controls[j]? = some b) :
+    (L.ctrlSlotsK I).2 = ctrlSize I ∧
+    ∃ s, ((L.ctrlSlotsK I).1[j]?).bind (·[m]?) = some s ∧ s.stop = s.first + b.n ∧
+      ∀ i, s.first + i = ctrlIndex I j i :=
+  L.ctrlSlot_is_ctrlIndex I hE hsz m j b hm hb
+
+/-- **Every entry after the controls lies in exactly one slice of the code's table**: existence ... -/
+theorem code_layout_covers (I : Inst) (hE : 0 < I.E) (hsz : ∀ b ∈ I.controls, b.size = 1)
+    (hex : L.ExtrasOneStamp I) (p : Nat) (h1 : ctrlSize I ≤ p) (h2 : p < totalSize I) :
+    ∃ (m j : Nat) (b : Blk) (s : L.Slot), m < I.E ∧ (stateBlocks I)[j]? = some b ∧
+      ((L.stateSlotsK I m)[j]?).map (L.shiftK (L.ctrlSlotsK I).2) = some s ∧ s.first ≤ p ∧ p < s.stop := by
+  obtain ⟨m, j, c, i, b, e, hp⟩ := stateIndex_surjective I p h1 h2
+  obtain ⟨s, s1, s2, s3⟩ := L.stateSlot_is_stateIndex I m j b hE hsz hex e.hb
+  have := s3 c i
+  have := index_lt b c i e.hc e.hi
+  exact ⟨m, j, b, s, e.hm, e.hb, s1, by omega, by omega⟩
+
+/-- ... and uniqueness: the slices of different (member, variable) do not overlap. -/
+theorem code_layout_disjoint (I : Inst) (hE : 0 < I.E) (hsz : ∀ b ∈ I.controls, b.size = 1)
+    (hex : L.ExtrasOneStamp I) (m j m' j' : Nat) (b b' : Blk) (s s' : L.Slot) (p : Nat)
+    (hm : m < I.E) (hm' : m' < I.E)
+    (hb : (stateBlocks I)[j]? = some b) (hb' : (stateBlocks I)[j']? = some b')
+    (hs : ((L.stateSlotsK I m)[j]?).map (L.shiftK (L.ctrlSlotsK I).2) = some s)
+    (hs' : ((L.stateSlotsK I m')[j']?).map (L.shiftK (L.ctrlSlotsK I).2) = some s')
+    (hp : s.first ≤ p ∧ p < s.stop) (hp' : s'.first ≤ p ∧ p < s'.stop) : m = m' ∧ j = j' := by
+  obtain ⟨t, t1, t2, t3⟩ := L.stateSlot_is_stateIndex I m j b hE hsz hex hb
+  obtain ⟨t', t1', t2', t3'⟩ := L.stateSlot_is_stateIndex I m' j' b' hE hsz hex hb'
+  rw [hs] at t1; rw [hs'] at t1'
+  cases t1; cases t1'
+  obtain ⟨c, i, hc, hi, hr⟩ := comp_time_exists b.n b.size (p - s.first) (by rw [← Blk.len_eq]; omega)
+  obtain ⟨c', i', hc', hi', hr'⟩ := comp_time_exists b'.n b'.size (p - s'.first) (by rw [← Blk.len_eq]; omega)
+  have h := stateIndex_injective I m j c i m' j' c' i' b b' ⟨hm, hb, hc, hi⟩ ⟨hm', hb', hc', hi'⟩
+    (by rw [← t3 c i, ← t3' c' i']; omega)
+  exact ⟨h.1, h.2.1⟩
+
+/-- **The history-pin iteration of the code is one step of `applyPins`, at `pinIndex`**: the entry
+    `self.__indices_as_lists[m][variable][0]` of the `k`-th variable of the loop
+    (`states ++ algs ++ controls`) is the model's `pinIndex I m k`, and the loop body
+    (interpolate at `t0` with NaN fills, divide by the nominal, write both bounds unless NaN) does to
+    `lbx`/`ubx` what `applyPins` does — so `history_pin_value`, `history_nan_no_pin`,
+    `history_pins_override`, `history_pin_final` speak about the code's loop body. -/
+theorem code_pin_is_applyPins (I : Inst) (m k : Nat) (b : Blk) (h : Option Hist) (lo hi : List XVal)
+    (hE : 0 < I.E) (hm : m < I.E) (hex : L.ExtrasOneStamp I) (hsz : ∀ b ∈ I.controls, b.size = 1)
+    (hk : k < (pinVars I).length) :
+    ∃ s, L.pinSlot I m k = some s ∧ s.first = pinIndex I m k ∧
+      L.pinStepK I.t0 b h s.first lo hi = applyPins I m [(b, h)] k (lo, hi) := by
+  obtain ⟨s, h1, h2⟩ := L.pinSlot_first I m k hE hm hex hsz hk
+  exact ⟨s, h1, h2, by rw [h2]; exact L.pinStepK_eq I m k b h lo hi⟩
+
+/-- **The initial-derivative iteration of the code is `derPin`, at `derIndex`** (`continue` on a
+    short history or a NaN at `t-1`, the assertion `times[-1] == t0`, the symbolic row on a NaN at
+    `t0`, otherwise the backward difference over the derivative's own nominal). -/
+theorem code_der_is_derPin (I : Inst) (m i : Nat) (b : Blk) (h : Option Hist) (nomDer : Rat)
+    (hE : 0 < I.E) (hex : L.ExtrasOneStamp I) (hsz : ∀ b ∈ I.controls, b.size = 1) (hi : i < I.states.length) :
+    L.derStepK I.t0 b h nomDer = derPin I.t0 b h nomDer ∧
+    ∃ s, L.derSlot I m i = some s ∧ s.first = derIndex I m i :=
+  ⟨L.derStepK_eq I.t0 b h nomDer, L.derSlot_first I m i hex hE hsz hi⟩
+
+/-- **The nominal of an initial derivative in the code is `derNominal`**: the state's nominal over
+    the last history step of member 0 (when that history has more than one point and does not start
+    at `t0`), otherwise over the first optimisation step, or the state's nominal itself when the
+    step is not positive; the assertion `h.times[-1] == times[0]` is the `none` case. -/
+theorem code_der_nominal_is_derNominal (b : Blk) (h0 : Option Hist) :
+    L.derNominalK b h0 = derNominal b h0 := L.derNominalK_eq b h0
+
+/-! ## bounds given under an alias of the variable -/
+
+/-- **A bound pair keyed by an alias bounds the canonical variable as stated**: for a plain alias
+    the pair is the variable's pair; for a negated alias `a = -x` the stored pair `(l, h)` satisfies
+    `l ≤ x ≤ h ↔ lo ≤ -x ≤ hi` for every `x` — whatever the sides are (0, ∓inf included), and in
+    particular a side that is exactly 0 stays the finite bound 0 (it does not turn into "no bound"). -/
+theorem alias_bounds_canonical (negated : Bool) (lo hi : EVal) (x : Rat) :
+    ∃ l h, aliasSides negated (.sc lo) (.sc hi) = (.sc l, .sc h) ∧
+      ((l ≤ EVal.fin x ∧ EVal.fin x ≤ h) ↔
+        (lo ≤ EVal.fin (if negated then -x else x) ∧ EVal.fin (if negated then -x else x) ≤ hi)) ∧
+      (negated = true → hi = EVal.fin 0 → l = EVal.fin 0) ∧
+      (negated = true → lo = EVal.fin 0 → h = EVal.fin 0) := by
+  cases negated with
+  | false => exact ⟨lo, hi, rfl, by simp, by simp, by simp⟩
+  | true =>
+    refine ⟨hi.neg, lo.neg, rfl, ?_, ?_, ?_⟩
+    · simp only [if_true]
+      rw [EVal.neg_le_fin_iff, EVal.fin_le_neg_iff]
+      exact and_comm
+    · intro _ h; subst h; simp [EVal.neg]
+    · intro _ h; subst h; simp [EVal.neg]
+
+/-- reading the pair back through the same alias (`AliasDict.__getitem__` swaps and negates again)
+    returns the user's pair, for every kind of side -/
+theorem alias_sides_roundtrip (negated : Bool) (lo hi : Side) :
+    aliasSides negated (aliasSides negated lo hi).1 (aliasSides negated lo hi).2 = (lo, hi) := by
+  cases negated <;> simp [aliasSides, Side.neg_neg]
+
+/-- per component: a vector / Timeseries pair under a negated alias is negated entry by entry and
+    the sides change places -/
+theorem alias_sides_entries (lo hi : List EVal) (t : List Rat) :
+    aliasSides true (.vec lo) (.vec hi) = (.vec (hi.map EVal.neg), .vec (lo.map EVal.neg)) ∧
+    aliasSides true (.ts1 t lo) (.ts1 t hi) = (.ts1 t (hi.map EVal.neg), .ts1 t (lo.map EVal.neg)) ∧
+    aliasSides true .none (.sc (.fin 0)) = (.sc (.fin 0), .none) := by
+  refine ⟨rfl, rfl, ?_⟩
+  simp [aliasSides, Side.neg, EVal.neg]
+
 /-! ## non-vacuity: a concrete instance (two members, a shared control on a coarser grid, a vector
 path variable with a 2-D Timeseries bound and per-component nominals, a vector extra variable) -/
 
@@ -689,6 +819,39 @@ example : (transcribeBounds exI).map (fun r => [r.lbx[3]?, r.ubx[3]?, r.lbx[18]?
     = some [some (XVal.fin (1/5)), some (XVal.fin (1/5)), some (XVal.fin (1/10)), some (XVal.fin (1/10)),
             some (XVal.fin (1/4)), some (XVal.fin (1/4))] := by decide +kernel
 
+
+-- ... the source-shaped allocation on this instance: the hypotheses hold, the control gets one shared
+-- slice [0, 3), member 1's slots are x [19, 23), path variable [23, 31), extra variable [31, 34), der 34
+example : L.ExtrasOneStamp exI ∧ (∀ b ∈ exI.controls, b.size = 1) := by
+  constructor
+  · intro b hb; simp [exI] at hb; subst hb; rfl
+  · intro b hb; simp [exI] at hb; subst hb; rfl
+
+example : L.ctrlSlotsK exI = ([[L.Slot.slice 0 3, L.Slot.slice 0 3]], 3) ∧
+    (L.stateSlotsK exI 1).map (L.shiftK (L.ctrlSlotsK exI).2)
+      = [L.Slot.slice 19 23, L.Slot.slice 23 31, L.Slot.slice 31 34, L.Slot.int 34] ∧
+    L.pinSlot exI 1 1 = some (L.Slot.slice 0 3) ∧ L.derSlot exI 0 0 = some (L.Slot.int 18) := by decide +kernel
+
+-- ... and the source-shaped pin steps: member 0 pins x(t0) = 2/10 at its first entry, the initial
+-- derivative is (2 - 1)/(0 - (-1))/nomDer
+example : L.pinStepK 0 (exI.states.getD 0 (initDerBlk 0)) (some (histEndingAt [-1] [some 1] 0 (some 2))) 1
+      [XVal.ninf, XVal.ninf] [XVal.pinf, XVal.pinf]
+      = some ([XVal.ninf, XVal.fin (1/5)], [XVal.pinf, XVal.fin (1/5)]) ∧
+    L.derStepK 0 (exI.states.getD 0 (initDerBlk 0)) (some (histEndingAt [-1] [some 1] 0 (some 2))) 10
+      = DerPin.pin (1/10) ∧
+    L.derStepK 0 (exI.states.getD 0 (initDerBlk 0)) (some (histEndingAt [-1] [some 1] 0 none)) 10
+      = DerPin.symbolic := by decide +kernel
+
+
+-- ... and the derivative nominal: history step 1 → 10 / 1; no history → first step 1; a history that does
+-- not end at the first stamp trips the assertion
+example : L.derNominalK (exI.states.getD 0 (initDerBlk 0)) (some (histEndingAt [-2] [some 1] 0 (some 2))) = some 5 ∧
+    L.derNominalK (exI.states.getD 0 (initDerBlk 0)) none = some 10 ∧
+    L.derNominalK (exI.states.getD 0 (initDerBlk 0)) (some (histEndingAt [-2] [some 1] (-1) (some 2))) = none := by
+  decide +kernel
+
+-- bounds()["negative_alias"] = (-2, 0) with negative_alias = -x: x is boxed by [0, 2]
+example : aliasSides true (.sc (.fin (-2))) (.sc (.fin 0)) = (.sc (.fin 0), .sc (.fin 2)) := by decide +kernel
 
 -- shared control, two members with different histories: member 0 says u(t0) = 3, member 1 says 1/2;
 -- the returned vectors hold member 1's value (1/2)/2 = 1/4; with member 1's value NaN, member 0's 3/2
